@@ -13,16 +13,20 @@ Proof. intros. unfold us_field. apply Z.mod_pos_bound. lia. Qed.
 Theorem round_start_f_exact : forall utc off,
   round_start_f utc off = Ok (round_start_tz utc off).
 Proof.
-  intros utc off. unfold round_start_f, round_start_tz.
-  rewrite (proj1 (proj2 (proj2 (ok_us_parts _ (us_field_range utc off))))). reflexivity.
+  intros utc off. unfold round_start_f.
+  rewrite (bucket_start_us_exact _ (us_field_range utc off)). cbn [bind]. f_equal.
+  rewrite round_start_tz_closed. unfold replace_us.
+  pose proof (mod_1000_of_field (utc + off)) as M. unfold us_field in *. lia.
 Qed.
 
 Theorem round_end_f_exact : forall utc off,
   round_end_f utc off = Ok (round_end_tz utc off).
 Proof.
-  intros utc off. unfold round_end_f, round_end_tz.
-  rewrite (proj2 (proj2 (proj2 (ok_us_parts _ (us_field_range utc off))))).
-  cbn [bind fst snd]. rewrite (Z.add_comm (us_field utc off / 1000) 1). reflexivity.
+  intros utc off. unfold round_end_f.
+  destruct (bucket_end_parts_exact _ (us_field_range utc off)) as [so [usf [E [_ [_ S]]]]].
+  rewrite E. cbn [bind fst snd]. f_equal.
+  rewrite round_end_tz_closed. unfold replace_us.
+  pose proof (mod_1000_of_field (utc + off)) as M. unfold us_field in *. lia.
 Qed.
 
 (* hence: start |-> floor_ms, end |-> floor_ms + 1000 on UTC microseconds for every
